@@ -161,9 +161,37 @@ def gen_module_prog(r):
     return "\n".join(lines) + "\n" + "\n".join(uses) + "\nfn dsp() {\n  " + " + ".join(terms) + "\n}\n"
 
 
+def gen_same_type_name_prog(r):
+    """sibling modules (same nesting depth) declaring type aliases / types with the SAME short name, and unqualified references to
+    that name from the top level or from one of the modules (response to seeded change C15b: a fallback that scans hash-map keys)"""
+    mods = ["osc", "env", "flt", "mix", "adsr"]
+    for i in range(len(mods) - 1, 0, -1):
+        j = r.below(i + 1); mods[i], mods[j] = mods[j], mods[i]
+    k = r.range(2, 4)
+    tn = r.choice(["Params", "State", "Cfg"])
+    shapes = ["{freq:float, amp:float}", "{amp:float, attack:float, release:float}", "(float, float)", "{amp:float}", "(float, float, float)"]
+    L = []
+    for m, sh in zip(mods[:k], shapes):
+        nested = r.chance(1, 4)
+        body = "  pub type alias %s = %s\n" % (tn, sh)
+        if r.chance(1, 2):
+            body += "  pub fn level(p:%s)->float { %s }\n" % (tn, "p.amp" if "amp" in sh else "p.0")
+        L.append(("mod %s {\n%s}\n" % (m, body)) if not nested else ("mod %s {\n  pub mod inner {\n  %s  }\n}\n" % (m, body.replace("\n", "\n  ").rstrip(" "))))
+    user = r.below(3)
+    if user == 0:
+        L.append("fn lev(p:%s)->float { 1.0 }\nfn dsp(){\n  0.25\n}\n" % tn)
+    elif user == 1:
+        L.append("fn dsp(){\n  let p : %s = {amp = 0.5}\n  0.5\n}\n" % tn)
+    else:
+        L.append("use %s::*\nfn lev(p:%s)->float { 2.0 }\nfn dsp(){\n  0.75\n}\n" % (mods[0], tn))
+    return "".join(L)
+
+
 def gen_module_sources(ck, n):
     return [{"name": "gen-mods-%d" % i, "src": gen_module_prog(ck.rng.fork(("C15mods", i))), "path": None, "sched": False,
-             "kind": "gen-mods"} for i in range(n)]
+             "kind": "gen-mods"} for i in range(n)] + \
+           [{"name": "gen-sametype-%d" % i, "src": gen_same_type_name_prog(ck.rng.fork(("C15sametype", i))), "path": None, "sched": False,
+             "kind": "gen-mods"} for i in range(max(8, n // 4))]
 
 
 def gen_type_sources(ck, n):
